@@ -447,16 +447,17 @@ def unit(u, res):
                     res.sat.append(dict(key=K_MIXED, builtin=name, arg=a_c, overflow_checks=ofc,
                                         got=str(render_result(meta, o.value, m2)) if o.kind == 'return' else 'panic', witness='%s(%s)' % (name, a_c)))
             else:
-                verdict, model = pr.prove(nm, o.pc, claim)
+                verdict, model = pr.prove(nm, o.pc, claim, diversify=diversify_plan([A]))
             if len(res.samples) < 2 and (cons or i > 0):
                 res.samples.append(dict(builtin=name, argument_shape=shape, overflow_checks=ofc, path=i,
                                         path_condition=[str(z3.simplify(c))[:160] for c in o.pc[len(cons):]][:3],
                                         outcome=(render_result(meta, o.value)[0] if o.kind == 'return' else 'panic'), verdict=verdict))
             if verdict == 'sat':
-                a_c = spec_concrete(A, model)
-                res.sat.append(dict(key=role(name, A, o.kind == 'panic'), builtin=name, arg=a_c, overflow_checks=ofc,
-                                    got=str(render_result(meta, o.value, model)) if o.kind == 'return' else 'panic: %s' % o.value,
-                                    witness='%s(%s)' % (name, a_c)))
+                for mdl in [model] + list(pr.extra_models):
+                    a_c = spec_concrete(A, mdl)
+                    res.sat.append(dict(key=role(name, A, o.kind == 'panic'), builtin=name, arg=a_c, overflow_checks=ofc,
+                                        got=str(render_result(meta, o.value, mdl)) if o.kind == 'return' else 'panic: %s' % o.value,
+                                        witness='%s(%s)' % (name, a_c)))
 
 
 # ---------------------------------------------------------------- replay
@@ -524,7 +525,13 @@ def judge_native(name, arg, got, meta):
             return False, 'type differs'
         items = want[1]
         if any(isinstance(x, Opaque) for x in items):
-            return True, 'opaque reference (case mapping / number rendering) not judged concretely'
+            if name in ('str::to_lowercase', 'str::to_uppercase', 'str::trim') and arg[0] == 'String':
+                # concrete replay judge: full Unicode case mapping (Python implements the same SpecialCasing rules incl. final sigma); trim = White_Space
+                s_ = arg[1]
+                ws = set(chr(c) for lo, hi in WS_RANGES for c in range(lo, hi + 1))
+                exp = s_.lower() if name.endswith('lowercase') else s_.upper() if name.endswith('uppercase') else s_.strip(''.join(ws))
+                return got[1] == ('String', exp), 'reference: %r' % exp
+            return True, 'opaque reference (number rendering) not judged concretely'
         return z3.is_true(z3.simplify(spec_eq_struct(('S', items), g))), 'reference string'
     return False, '?'
 
